@@ -340,6 +340,7 @@ impl Model {
             Op::ReplaceChild { recv, new, old, .. } => vec![*recv, *new, *old],
             Op::RemoveChild { recv, old, .. } => vec![*recv, *old],
             Op::Substring { node, .. } | Op::Nav { node, .. } | Op::Touch { node } => vec![*node],
+            Op::Normalize { el } => vec![*el],
             _ => vec![],
         }
     }
@@ -1226,6 +1227,16 @@ impl Model {
                 }
                 _ => Plan::skip(),
             },
+            // normalize() returns nothing: it cannot refuse.  Under the merged view there are no adjacent
+            // Text nodes to begin with (a run of pieces is one node), so nothing observable may change.
+            Op::Normalize { el } => match ns(el) {
+                Some(m) if self.nodes[m].kind == Kind::Element => {
+                    let mut p = Plan::ok();
+                    p.no_effect = self.merges(m);
+                    p
+                }
+                _ => Plan::skip(),
+            },
             Op::SplitText { node, off, .. } => match ns(node) {
                 Some(m) if matches!(self.nodes[m].kind, Kind::Text | Kind::CData) => {
                     if *off > chars_len(&self.nodes[m].data) {
@@ -1319,6 +1330,53 @@ impl Model {
             self.detach_attr(a);
         }
         a
+    }
+
+    /// Element.normalize() per DOM Level 1: in the whole subtree under `el`, every maximal run of two or more
+    /// adjacent Text children becomes one Text node holding the concatenated data; the other nodes of the run
+    /// leave the tree.  DOM Level 1 does not say which node of a run survives: if the observation shows exactly
+    /// one member of the run still listed under the parent, that one is taken, otherwise the first.  A Text node
+    /// with no Text neighbour stays as it is, empty or not (removal of empty nodes is Level 2).
+    /// Returns the number of runs merged.
+    pub fn apply_normalize(&mut self, el: Mid, post: &ObsMap) -> usize {
+        if self.merges(el) {
+            return 0;
+        }
+        let mut merged = 0;
+        let mut todo = vec![el];
+        while let Some(e) = todo.pop() {
+            let kids = self.nodes[e].children.clone();
+            let listed: Vec<Key> = self.key(e).and_then(|k| post.get(&k)).map(|o| o.children.clone()).unwrap_or_default();
+            let mut i = 0;
+            while i < kids.len() {
+                if self.nodes[kids[i]].kind == Kind::Element {
+                    todo.push(kids[i]);
+                }
+                if self.nodes[kids[i]].kind != Kind::Text {
+                    i += 1;
+                    continue;
+                }
+                let mut j = i;
+                while j + 1 < kids.len() && self.nodes[kids[j + 1]].kind == Kind::Text {
+                    j += 1;
+                }
+                if j > i {
+                    let run: Vec<Mid> = kids[i..=j].to_vec();
+                    let data: String = run.iter().map(|m| self.nodes[*m].data.as_str()).collect();
+                    let left: Vec<Mid> = run.iter().cloned().filter(|m| self.key(*m).map(|k| listed.contains(&k)).unwrap_or(false)).collect();
+                    let keep = if left.len() == 1 { left[0] } else { run[0] };
+                    for m in &run {
+                        if *m != keep {
+                            self.detach(*m);
+                        }
+                    }
+                    self.nodes[keep].data = data;
+                    merged += 1;
+                }
+                i = j + 1;
+            }
+        }
+        merged
     }
 
     /// CharacterData result per DOM L1 (offsets in Unicode scalar values, counts clipped)
